@@ -5,6 +5,7 @@ import (
 	"go/token"
 	"go/types"
 	"strings"
+	"verifsa/internal/prover"
 
 	"golang.org/x/tools/go/ssa"
 )
@@ -51,6 +52,39 @@ func concatSeq(v ssa.Value, depth int) (seq []catom, ok bool) {
 				return nil, true // make([]byte, 0, n): empty, pre-sized
 			}
 			return []catom{{"0x" + k.Value.ExactString(), nil}}, true
+		}
+		// src := make([]byte, len(a)+k, cap); copy(src, a): a followed by k zero octets (the only write into the fresh slice)
+		if refs := x.Referrers(); refs != nil {
+			var cp *ssa.Call
+			clean := true
+			for _, r := range *refs {
+				switch y := r.(type) {
+				case *ssa.Call:
+					if bi, isB := y.Call.Value.(*ssa.Builtin); isB && bi.Name() == "copy" && y.Call.Args[0] == ssa.Value(x) && cp == nil {
+						cp = y
+					} else if isB && bi.Name() == "append" && y.Call.Args[0] == ssa.Value(x) {
+						// the chain continues
+					} else {
+						clean = false
+					}
+				case *ssa.DebugRef:
+				default:
+					clean = false
+				}
+			}
+			if cp != nil && clean {
+				pv := prover.New(x.Parent())
+				d := pv.LinOf(x.Len).Add(pv.LenOf(cp.Call.Args[1]), -1)
+				if d.IsConst() && d.C >= 0 {
+					pre, ok := concatSeq(cp.Call.Args[1], depth+1)
+					if ok {
+						if d.C > 0 {
+							pre = append(pre, catom{fmt.Sprintf("0x%d", d.C), nil})
+						}
+						return normZeros(pre), true
+					}
+				}
+			}
 		}
 	case *ssa.BinOp:
 		if x.Op == token.ADD {
@@ -148,7 +182,23 @@ func bufferWrites(buf ssa.Value, at ssa.Instruction, depth int) ([]catom, bool) 
 	for _, b := range fn.DomPreorder() {
 		for _, ins := range b.Instrs {
 			call, isC := ins.(*ssa.Call)
-			if !isC || len(call.Call.Args) == 0 || call.Call.Args[0] != buf {
+			if !isC || len(call.Call.Args) == 0 {
+				continue
+			}
+			// fmt.Fprintf(buf, format, args...) writes what Sprintf(format, args...) yields
+			if fc := call.Call.StaticCallee(); fc != nil && fc.Pkg != nil && fc.Pkg.Pkg.Path() == "fmt" && fc.Name() == "Fprintf" {
+				if mi, isMI := call.Call.Args[0].(*ssa.MakeInterface); isMI && mi.X == buf {
+					if !b.Dominates(at.Block()) || inLoop(b) {
+						ok = false
+					}
+					if b == at.Block() && !before(call, at) {
+						continue
+					}
+					out = append(out, catom{role(plain, call), call})
+				}
+				continue
+			}
+			if call.Call.Args[0] != buf {
 				continue
 			}
 			cal := call.Call.StaticCallee()
